@@ -202,6 +202,54 @@ fn history(em: &mut Emit, rng: &mut Rng, steps: usize, hid: u64) {
                 bad.push(format!("a fresh thread gives a different result: {} vs {}", imp, other));
             }
         }
+        // every public entry point of an execution gives what `Program::execute` gives:
+        // `Program::try_from`, `Context::resolve` on the parser's tree, and `Context::resolve_all` /
+        // `Value::resolve_all` (a list of the results, operands in order, the first error aborting)
+        if step % 2 == 0 {
+            let wire = |r: &Result<Value, cel_interpreter::ExecutionError>, log: &[String]| {
+                format!("(res {} (log{}{}))", sx_result(r), if log.is_empty() { "" } else { " " }, log.join(" "))
+            };
+            let via_try_from = guarded(std::panic::AssertUnwindSafe(|| match Program::try_from(src.as_str()) {
+                Ok(p) => exec_wire(&p, &ctx),
+                Err(_) => "(reject)".to_string(),
+            }));
+            if crate::canon_local(&via_try_from) != crate::canon_local(&imp) {
+                bad.push(format!("Program::try_from differs from Program::compile: {} vs {}", imp, via_try_from));
+            }
+            let tree = cel_parser::Parser::default().parse(&src);
+            if let Ok(tree) = tree {
+                let via_resolve = guarded(std::panic::AssertUnwindSafe(|| {
+                    let _ = take_log();
+                    let r = ctx.resolve(&tree);
+                    wire(&r, &take_log())
+                }));
+                if crate::canon_local(&via_resolve) != crate::canon_local(&imp) {
+                    bad.push(format!("Context::resolve differs from Program::execute: {} vs {}", imp, via_resolve));
+                }
+                let twice = [tree.clone(), tree.clone()];
+                let expected = match &r {
+                    Ok(v) => wire(&Ok(Value::List(Arc::new(vec![v.clone(), v.clone()]))), &[log.clone(), log.clone()].concat()),
+                    Err(e) => wire(&Err(e.clone()), &log),
+                };
+                let via_ctx_all = guarded(std::panic::AssertUnwindSafe(|| {
+                    let _ = take_log();
+                    let r = ctx.resolve_all(&twice);
+                    wire(&r, &take_log())
+                }));
+                let via_value_all = guarded(std::panic::AssertUnwindSafe(|| {
+                    let _ = take_log();
+                    let r = Value::resolve_all(&twice, &ctx);
+                    wire(&r, &take_log())
+                }));
+                for (what, got) in [("Context::resolve_all", &via_ctx_all), ("Value::resolve_all", &via_value_all)] {
+                    if crate::canon_local(got) != crate::canon_local(&expected) {
+                        bad.push(format!("{} of the program twice is not the list of its results: {} vs {}", what, expected, got));
+                    }
+                }
+            } else {
+                bad.push("the parser rejects what Program::compile accepted".into());
+            }
+        }
         // an equal context built afresh gives an equal result
         if step % 10 == 0 {
             let fresh = spec.build();
